@@ -1,0 +1,151 @@
+//go:build verif
+
+package mqtt
+
+import (
+	"sort"
+	"sync/atomic"
+)
+
+// This file is only compiled with the `verif` build tag. It exposes, read-only, the parts of the
+// broker state the session life-cycle checks compare: which (client id, filter) pairs are in the
+// topic index, the pending delayed wills with their due time, and the retained messages.
+
+// VerifLifeSub is one client subscription found in the topic index.
+type VerifLifeSub struct {
+	Client string
+	Filter string
+	Qos    byte
+}
+
+// VerifLifeWill is one entry of the delayed-will table.
+type VerifLifeWill struct {
+	Client  string
+	Due     int64 // pk.Expiry: the will is sent by the first tick with now > Due
+	Created int64
+	Topic   string
+	Payload []byte
+	Qos     byte
+	Retain  bool
+}
+
+// VerifLifeRetained is one retained message.
+type VerifLifeRetained struct {
+	Topic   string
+	Payload []byte
+	Qos     byte
+	Origin  string
+}
+
+// VerifLifeClient is the life-cycle view of one entry of the Clients map.
+type VerifLifeClient struct {
+	ID        string
+	Remote    string // remote address of the connection the client object was created for
+	Open      bool   // the client object has not been stopped
+	TakenOver bool
+	StopTime  int64
+	Version   byte
+	Clean     bool
+	SEI       uint32
+	SEIFlag   bool
+	WillFlag  uint32
+	WillDelay uint32
+	Subs      []string // filters in the client's own subscription map, sorted
+	Inflight  [][]byte // payloads of the PUBLISH records in the in-flight map, sorted by packet id
+}
+
+// VerifLifeSnap is the life-cycle snapshot.
+type VerifLifeSnap struct {
+	Clients  []VerifLifeClient
+	Index    []VerifLifeSub
+	Wills    []VerifLifeWill
+	Retained []VerifLifeRetained
+}
+
+func verifLifeWalk(n *particle, path string, top bool, out *[]VerifLifeSub) {
+	if n.subscriptions != nil {
+		for id, sub := range n.subscriptions.GetAll() {
+			*out = append(*out, VerifLifeSub{Client: id, Filter: path, Qos: sub.Qos})
+		}
+	}
+	if n.shared != nil {
+		for _, m := range n.shared.GetAll() {
+			for id, sub := range m {
+				*out = append(*out, VerifLifeSub{Client: id, Filter: sub.Filter, Qos: sub.Qos})
+			}
+		}
+	}
+	for key, c := range n.particles.getAll() {
+		p := key
+		if !top {
+			p = path + "/" + key
+		}
+		verifLifeWalk(c, p, false, out)
+	}
+}
+
+// VerifLifeSnapshot returns the life-cycle view of the broker state.
+func (s *Server) VerifLifeSnapshot() VerifLifeSnap {
+	var snap VerifLifeSnap
+	all := s.Clients.GetAll()
+	ids := make([]string, 0, len(all))
+	for id := range all {
+		ids = append(ids, id)
+	}
+	sort.Strings(ids)
+	for _, id := range ids {
+		cl := all[id]
+		if cl.Net.Inline {
+			continue
+		}
+		vc := VerifLifeClient{
+			ID:        id,
+			Remote:    cl.Net.Remote,
+			Open:      cl.Net.Conn != nil && !cl.Closed(),
+			TakenOver: cl.IsTakenOver(),
+			StopTime:  cl.StopTime(),
+			Version:   cl.Properties.ProtocolVersion,
+			Clean:     cl.Properties.Clean,
+			SEI:       cl.Properties.Props.SessionExpiryInterval,
+			SEIFlag:   cl.Properties.Props.SessionExpiryIntervalFlag,
+			WillFlag:  atomic.LoadUint32(&cl.Properties.Will.Flag),
+			WillDelay: cl.Properties.Will.WillDelayInterval,
+		}
+		for f := range cl.State.Subscriptions.GetAll() {
+			vc.Subs = append(vc.Subs, f)
+		}
+		sort.Strings(vc.Subs)
+		cl.State.Inflight.RLock()
+		pids := []int{}
+		for pid, p := range cl.State.Inflight.internal {
+			if p.FixedHeader.Type == 3 {
+				pids = append(pids, int(pid))
+			}
+		}
+		sort.Ints(pids)
+		for _, pid := range pids {
+			vc.Inflight = append(vc.Inflight, cl.State.Inflight.internal[uint16(pid)].Payload)
+		}
+		cl.State.Inflight.RUnlock()
+		snap.Clients = append(snap.Clients, vc)
+	}
+	s.Topics.root.Lock()
+	verifLifeWalk(s.Topics.root, "", true, &snap.Index)
+	s.Topics.root.Unlock()
+	sort.Slice(snap.Index, func(i, j int) bool {
+		if snap.Index[i].Client != snap.Index[j].Client {
+			return snap.Index[i].Client < snap.Index[j].Client
+		}
+		return snap.Index[i].Filter < snap.Index[j].Filter
+	})
+	for id, pk := range s.loop.willDelayed.GetAll() {
+		snap.Wills = append(snap.Wills, VerifLifeWill{Client: id, Due: pk.Expiry, Created: pk.Created, Topic: pk.TopicName,
+			Payload: pk.Payload, Qos: pk.FixedHeader.Qos, Retain: pk.FixedHeader.Retain})
+	}
+	sort.Slice(snap.Wills, func(i, j int) bool { return snap.Wills[i].Client < snap.Wills[j].Client })
+	for topic, pk := range s.Topics.Retained.GetAll() {
+		snap.Retained = append(snap.Retained, VerifLifeRetained{Topic: topic, Payload: pk.Payload, Qos: pk.FixedHeader.Qos, Origin: pk.Origin})
+	}
+	sort.Slice(snap.Retained, func(i, j int) bool { return snap.Retained[i].Topic < snap.Retained[j].Topic })
+	return snap
+}
